@@ -2,7 +2,7 @@
     every persisted status change against (clause (15,_)); these theorems show they say what
     the property says. *)
 From Coq Require Import List ZArith Bool Arith.
-From FF Require Import Sx StoreModel StoreCheck PreCheck EngineMon LifeCycleFacts TaskRun TaskRunFacts.
+From FF Require Import Sx StoreModel StoreCheck PreCheck EngineMon LifeCycleFacts TaskRun TaskRunFacts EngineCore EngineCoreFacts.
 Import ListNotations.
 Local Open Scope Z_scope.
 
@@ -42,3 +42,27 @@ Theorem C15_run_ending_after_run_ok : forall p e,
   acc_step p e = Some NeedEnding -> (e = TX /\ p = NeedEnding) \/ e = TE 1 0.
 Proof. exact into_NeedEnding. Qed.
 Print Assumptions C15_run_ending_after_run_ok.
+
+(** --- engine level (EngineCore: parser knowledge, executor runs and persisted statuses of one instance as a
+    transition system; scope: failures, retry command, crash/restart, watchdog failing a dead run).  The
+    statements hold for every history in which no delivery is accepted with a stale snapshot
+    ([validate = true]); the code as it is admits such a delivery after a retry command re-initialised the
+    instance, and then every one of them fails ([..._unvalidated_refuted]; known finding F-dup-push,
+    reproduced on the real code).  Journals of the real engine in this scope are checked to be histories of
+    EngineCore ([EngineCoreCheck.check_core]) and the hypothesis is monitored on them. --- *)
+
+Theorem C15_engine_success_final : forall tasks deps ls s l s' t,
+  run tasks deps true boot ls = Some s -> step tasks deps true s l = Some s' ->
+  EngineCore.store s t = SSuccess -> EngineCore.store s' t = SSuccess.
+Proof.
+  intros tasks deps ls s l s' t Hr Hs.
+  exact (success_final tasks deps s l s' t (inv_reach tasks deps ls boot s (inv_boot deps) Hr) Hs).
+Qed.
+Print Assumptions C15_engine_success_final.
+
+Theorem C15_engine_unvalidated_refuted :
+  exists s s', run [1; 2; 3]%Z deps3 false boot (firstn 15 witness_dup) = Some s /\
+               step [1; 2; 3]%Z deps3 false s (StartWrite 2) = Some s' /\
+               EngineCore.store s 2 = SSuccess /\ EngineCore.store s' 2 = SRunning.
+Proof. exact success_overwritten_refuted. Qed.
+Print Assumptions C15_engine_unvalidated_refuted.
